@@ -38,3 +38,8 @@ pub assume_specification<T, P: FnOnce(&T) -> bool> [Option::<T>::filter] (o: Opt
         r is Some ==> r == o,
         o is Some ==> (r is Some <==> p.ensures((&o->Some_0,), true)),
 ;
+
+pub assume_specification [i64::saturating_add] (x: i64, y: i64) -> (r: i64)
+    ensures
+        r as int == (if (x as int) + (y as int) > (i64::MAX as int) { i64::MAX as int } else if (x as int) + (y as int) < (i64::MIN as int) { i64::MIN as int } else { (x as int) + (y as int) }),
+;
